@@ -1,4 +1,5 @@
 mod cli;
+mod faults;
 mod genp;
 mod gort;
 mod harness;
@@ -208,6 +209,11 @@ fn main() {
             warm_builtins(prng::mix(&[opts.seed, prng::purpose("warm")]));
             props::c16::run(&opts)
         }
+        "c15" => {
+            println!("VERIF_SEED={}", opts.seed);
+            warm_builtins(prng::mix(&[opts.seed, prng::purpose("warm")]));
+            props::c15::run(&opts)
+        }
         "c09" => {
             println!("VERIF_SEED={}", opts.seed);
             warm_builtins(prng::mix(&[opts.seed, prng::purpose("warm")]));
@@ -285,6 +291,7 @@ fn main() {
                 "C13" => props::c13::replay(&file),
                 "C09" => props::c09::replay(&file),
                 "C14" => props::c14::replay(&file),
+                "C15" => props::c15::replay(&file),
                 "C16" => props::c16::replay(&file),
                 _ => {
                     eprintln!("HARNESS ERROR: no replay for property {prop}");
